@@ -524,19 +524,22 @@ func (c *Conn) IsClient() bool {
 // readDatagram 从底层 UDP socket 读取一个完整的数据报。
 func (c *Conn) readDatagram() error {
 	buf := make([]byte, maxCiphertext+recordHeaderLen)
-	n, addr, err := c.pconn.ReadFrom(buf)
-	if err != nil {
-		return err
+	for {
+		n, addr, err := c.pconn.ReadFrom(buf)
+		if err != nil {
+			return err
+		}
+		// 验证地址：只接受对端地址的数据报。
+		// 忽略非对端报文并继续读（循环而非递归：否则每个非对端报文都会占用一层调用栈和一个缓冲区）
+		if c.remoteAddr != nil && addr.String() != c.remoteAddr.String() {
+			continue
+		}
+		if c.remoteAddr == nil {
+			c.remoteAddr = addr // 首次收到报文时设置对端地址
+		}
+		c.rawInputBuf = buf[:n]
+		return nil
 	}
-	// 验证地址：只接受对端地址的数据报
-	if c.remoteAddr != nil && addr.String() != c.remoteAddr.String() {
-		return c.readDatagram() // 忽略非对端报文，继续读
-	}
-	if c.remoteAddr == nil {
-		c.remoteAddr = addr // 首次收到报文时设置对端地址
-	}
-	c.rawInputBuf = buf[:n]
-	return nil
 }
 
 // =============================================================================
